@@ -11,4 +11,6 @@ cc -O2 -shared -fPIC -o "$ROOT/preload/getrandom_shim.so" "$ROOT/preload/getrand
 
 # Miri target of the C03 tier (cold start is ~1 min; do it here, not in the check)
 "$ROOT/target/release/sim_pico" miri-prebuild || echo "warning: Miri prebuild failed (the C03 check will report it)"
+# Miri target of the intern tier
+(cd "$ROOT/sim" && MIRIFLAGS="-Zmiri-disable-isolation -Zmiri-tree-borrows" cargo +nightly miri run --offline --release -q -p sim_intern_miri -- --scenario intern --seed 0 >/dev/null 2>&1) || echo "warning: Miri prebuild of sim_intern_miri failed (the C05/C06 checks will report it)"
 echo "setup ok"
